@@ -34,3 +34,56 @@ func TextPay(seed uint64, id int, n int) []byte {
 	}
 	return out[:n]
 }
+
+// JSONDoc returns a document of exactly n bytes for ReadJSON programs. Most
+// variants begin with one JSON value (string, array, object, number, value
+// followed by a newline or by trailing bytes); some are deliberately not JSON
+// (unterminated string, plain text). The content still depends on (seed, id).
+func JSONDoc(seed uint64, id int, n int) []byte {
+	if n == 0 {
+		return []byte{}
+	}
+	sel := int(Pay(seed, id+7777, 1)[0])
+	body := func(k int) []byte { return TextPay(seed, id, k) }
+	cat := func(parts ...[]byte) []byte {
+		var o []byte
+		for _, p := range parts {
+			o = append(o, p...)
+		}
+		return o
+	}
+	digits := func(k int) []byte {
+		o := make([]byte, k)
+		r := Pay(seed, id+99, k)
+		for i := range o {
+			o[i] = '1' + r[i]%9
+		}
+		return o
+	}
+	switch {
+	case n == 1:
+		return digits(1)
+	case n == 2:
+		return [][]byte{[]byte(`""`), []byte("[]"), digits(2), []byte(`"x`)}[sel%4]
+	}
+	q := []byte{'"'}
+	switch v := sel % 8; {
+	case v == 1:
+		return cat(q, body(n-3), q, []byte("\n"))
+	case v == 2 && n >= 4:
+		return cat([]byte(`["`), body(n-4), []byte(`"]`))
+	case v == 3 && n >= 8:
+		return cat([]byte(`{"k":"`), body(n-8), []byte(`"}`))
+	case v == 4 && n <= 15:
+		return digits(n)
+	case v == 4 && n >= 4:
+		return cat(digits(3), []byte(" "), body(n-4))
+	case v == 5:
+		return cat(q, body(n-1))
+	case v == 6:
+		return body(n)
+	case v == 7 && n >= 4:
+		return cat(q, body(n-4), q, []byte(" z"))
+	}
+	return cat(q, body(n-2), q)
+}
